@@ -1,5 +1,6 @@
 ''' Whole bundle encodings and helper functions.
 '''
+import io
 import cbor2
 from typing import Set
 from scapy_cbor.fields import (PacketField, PacketListField)
@@ -44,6 +45,17 @@ class Bundle(CborArray):
         item = self.build()
         data = b'\x9f' + b''.join(cbor2.dumps(part) for part in item) + b'\xff'
         return data
+
+    def dissect(self, s):
+        if isinstance(s, bytes):
+            # Nothing can follow the outer array of a bundle, anything
+            # there means that the block framing has been damaged
+            with io.BytesIO(s) as buf:
+                item = cbor2.CBORDecoder(buf).decode()
+                if buf.read(1):
+                    raise cbor2.CBORDecodeError('extra data after the end of the bundle')
+            s = item
+        CborArray.dissect(self, s)
 
     def post_dissect(self, s):
         # Special handling for admin payload
